@@ -131,6 +131,49 @@ Theorem C16_bypass_entry_points : forall now e,
 Proof. exact bypass_entry_points. Qed.
 Print Assumptions C16_bypass_entry_points.
 
+(* every exported sender (table entry_points of Model/Rate.v, one row per exported method of
+   *Commands in commands.go plus Client.Send and Client.Quit; compared with the source by
+   suite rate.entry and exercised on the wire by scenario H of rate.wire): exactly Ping and
+   Pong go straight to Client.write, all others end in Client.Send ... *)
+Theorem C16_entry_points_routes : forall name r,
+  In (name, r) entry_points -> (r = ViaWrite <-> (name = bs "Ping" \/ name = bs "Pong")).
+Proof. exact entry_points_routes. Qed.
+Print Assumptions C16_entry_points_routes.
+
+Theorem C16_entry_points_table : length entry_points = 39%nat /\ NoDup (map fst entry_points).
+Proof. exact entry_points_count. Qed.
+Print Assumptions C16_entry_points_table.
+
+(* ... what a path contributes to a schedule, whatever GlobalFormat is ... *)
+Theorem C16_entry_actions : forall gf now e,
+  entry_actions gf false ViaSend now e = [ARate now e; AEnq e] /\
+  entry_actions gf true ViaSend now e = [AEnq e] /\
+  (forall allow, entry_actions gf allow ViaWrite now e = [AEnq e]) /\
+  (forall allow r, entry_actions true allow r now e = entry_actions false allow r now e).
+Proof. exact entry_actions_shape. Qed.
+Print Assumptions C16_entry_actions.
+
+(* ... so "no matter how fast the application calls the send helpers": after any monotone
+   schedule, with the allowance used, an event handed to ANY sender that ends in Client.Send
+   is returned exactly its cost, then queued ... *)
+Theorem C16_entry_point_held : forall name gf acts now e r0,
+  entry_route name = Some ViaSend ->
+  0 <= wd r0 -> 0 <= ev_len e -> lens_ok acts ->
+  monotone (Z.max (last r0) (lastr r0)) (acts ++ [ARate now e]) ->
+  threshold + (now - Z.max (last r0) (lastr r0)) < wd r0 + charged (acts ++ [ARate now e]) ->
+  snd (exec (fst (exec (sys0 r0) acts)) (entry_actions gf false ViaSend now e)) = [cost (ev_len e)].
+Proof. exact entry_point_held. Qed.
+Print Assumptions C16_entry_point_held.
+
+(* ... and an event handed to Ping/Pong, or to anything with AllowFlood, is queued with no
+   rate call, no delay and no charge *)
+Theorem C16_entry_point_not_rated : forall gf allow r now e s,
+  r = ViaWrite \/ allow = true ->
+  snd (exec s (entry_actions gf allow r now e)) = [] /\
+  wd (rs (fst (exec s (entry_actions gf allow r now e)))) = wd (rs s).
+Proof. exact entry_point_not_rated. Qed.
+Print Assumptions C16_entry_point_not_rated.
+
 Theorem C16_allow_flood : forall pieces s t g id,
   tx s = [] ->
   snd (send_flood true s t g id pieces) = t /\
